@@ -386,11 +386,14 @@ pub fn update_model(cx: &DapCtx, m: &mut DModel, sym: &Sym, obs: &Value) {
         Sym::ConfigurationDone if success => m.configured = true,
         Sym::SetBps(v) if success => {
             m.line_bps = v.iter().cloned().collect();
-            m.hits_unknown = false;
+            // counters that became unknown at a restart stay unknown for the kind that was not re-set
+            m.hits_unknown = m.hits_unknown && matches!(m.insn_opt, Some(BpOpt::Hit2 | BpOpt::HitGe2 | BpOpt::LogHit2)) && !m.insn_bps.is_empty();
             m.prev_line_phase = m.line_phase;
             m.line_phase = phase;
             m.bps_set_phase = phase;
-            m.hits.clear();
+            // the records of this kind are new: their counters start again; the instruction
+            // breakpoint keeps its own
+            m.hits.retain(|pc, _| cx.insns.contains(pc));
         }
         Sym::SetBpsIllTyped if success => {
             // whatever could be decoded (nothing) replaced the set of this source
@@ -398,7 +401,7 @@ pub fn update_model(cx: &DapCtx, m: &mut DModel, sym: &Sym, obs: &Value) {
             m.prev_line_phase = m.line_phase;
             m.line_phase = phase;
             m.bps_set_phase = phase;
-            m.hits.clear();
+            m.hits.retain(|pc, _| cx.insns.contains(pc));
         }
         Sym::SetFnBpsIllTyped if success => {
             m.fn_bps.clear();
@@ -414,8 +417,8 @@ pub fn update_model(cx: &DapCtx, m: &mut DModel, sym: &Sym, obs: &Value) {
             m.insn_opt = Some(*o);
             m.insn_phase = phase;
             m.bps_set_phase = phase;
-            m.hits.clear();
-            m.hits_unknown = false;
+            m.hits.retain(|pc, _| !cx.insns.contains(pc));
+            m.hits_unknown = m.hits_unknown && m.line_bps.values().any(|o| matches!(o, BpOpt::Hit2 | BpOpt::HitGe2 | BpOpt::LogHit2));
         }
         Sym::SetInsnBps(v) if success => {
             m.insn_opt = None;
